@@ -71,7 +71,39 @@ pub fn render_with_anchors(doc: &Doc, opts: &RenderOpts) -> Rendered {
     render_inner(doc, opts)
 }
 
+/// Verification hook (`--cfg veryl_verif`): when a tap is started on this thread, every
+/// `(Doc, RenderOpts)` handed to the renderer is recorded so that an external checker can
+/// replay the very same documents through its own model of the renderer.
+#[cfg(veryl_verif)]
+pub mod verif_tap {
+    use super::RenderOpts;
+    use crate::doc::Doc;
+    use std::cell::RefCell;
+
+    thread_local! {
+        static TAP: RefCell<Option<Vec<(Doc, RenderOpts)>>> = const { RefCell::new(None) };
+    }
+
+    pub fn start() {
+        TAP.with(|t| *t.borrow_mut() = Some(Vec::new()));
+    }
+
+    pub fn take() -> Vec<(Doc, RenderOpts)> {
+        TAP.with(|t| t.borrow_mut().take().unwrap_or_default())
+    }
+
+    pub(super) fn record(doc: &Doc, opts: &RenderOpts) {
+        TAP.with(|t| {
+            if let Some(v) = t.borrow_mut().as_mut() {
+                v.push((doc.clone(), opts.clone()));
+            }
+        });
+    }
+}
+
 fn render_inner(doc: &Doc, opts: &RenderOpts) -> Rendered {
+    #[cfg(veryl_verif)]
+    verif_tap::record(doc, opts);
     let mut state = State {
         out: String::new(),
         col: 0,
